@@ -302,6 +302,17 @@ fn op_array<T: Pod, M: VolatileMemory>(c: &M, st: &mut St, t: &mut Tape, cx: &mu
             ar.store(i, T::from_b(&data));
             st.wr(off + i * T::N, &data, 3);
         }
+        2 if t.chance(1, 5) => {
+            // an index that names no element (== len, or beyond): the documented panic, and
+            // neither a value nor a change of any byte
+            let bad = if t.flag() { n } else { n + 1 + t.idx(3) };
+            let data = t.bytes(T::N);
+            note!(cx, "array::<{}>({},{}).load/store/ref_at({}) (no such element)", T::NAME, off, n, bad);
+            cx.nt("index_names_no_element");
+            ensure!(crate::engine::no_panic(|| ar.load(bad).to_b()).is_err(), "array::<{}>({},{}).load({}) returned a value", T::NAME, off, n, bad);
+            ensure!(crate::engine::no_panic(|| ar.store(bad, T::from_b(&data))).is_err(), "array::<{}>({},{}).store({}) returned normally", T::NAME, off, n, bad);
+            ensure!(crate::engine::no_panic(|| ar.ref_at(bad).ptr_guard().len()).is_err(), "array::<{}>({},{}).ref_at({}) returned a reference", T::NAME, off, n, bad);
+        }
         2 if n > 0 => {
             let i = t.idx(n);
             let data = t.bytes(T::N);
